@@ -360,11 +360,13 @@ def gen_schema(rng, idx, max_depth=3, userord=True, state=True, choices=True, de
 
 
 def userord_schema(kind):
-    """Hand schemas for the exhaustive user-ordered runs.  kind: list | leaflist | keyless | statell | statelist"""
+    """Hand schemas for the exhaustive user-ordered runs.  kind: list | leaflist | strll | keyless | statell | statelist"""
     if kind == "list":
         l = SNode("list", "ul", keys=["k"], userord=True, kids=[SNode("leaf", "k", ty=Ty("uint8"), iskey=True), SNode("leaf", "v", ty=Ty("string"))])
     elif kind == "leaflist":
         l = SNode("leaflist", "ul", ty=Ty("uint8"), userord=True)
+    elif kind == "strll":
+        l = SNode("leaflist", "ul", ty=Ty("string"), userord=True)
     elif kind == "keyless":
         l = SNode("list", "ul", keys=[], userord=True, config=False, kids=[SNode("leaf", "v", ty=Ty("uint8"), config=False)])
     elif kind == "statell":
@@ -376,6 +378,26 @@ def userord_schema(kind):
         raise ValueError(kind)
     return Schema("uo" + kind, [SNode("container", "c", kids=[SNode("leaf", "a", ty=Ty("string")), l, SNode("leaf", "z", ty=Ty("string"))]),
                                 copy.deepcopy(l)])
+
+
+def findings_schema():
+    """Hand schema for the witnesses of the diff findings (corpus/diff/findings.json)."""
+    S = SNode
+    st = lambda **k: dict(config=False, **k)
+    return Schema("fnd", [
+        S("container", "c", kids=[
+            S("leaf", "x", ty=Ty("string"), dflt=b"d"),
+            S("leaflist", "dl", ty=Ty("string"), userord=True, dflts=[b"a", b"b"]),
+            S("leaflist", "dl3", ty=Ty("string"), userord=True, dflts=[b"c", b"a", b"b"]),
+            S("leaflist", "sl", ty=Ty("int8"))]),
+        S("container", "st", config=False, kids=[
+            S("list", "kl", keys=[], userord=True, config=False, kids=[
+                S("leaf", "f3", ty=Ty("uint8"), dflt=b"100", config=False), S("leaf", "f4", ty=Ty("string"), config=False)]),
+            S("leaflist", "sb", ty=Ty("boolean"), userord=True, config=False),
+            S("list", "sk", keys=["k"], userord=True, config=False, kids=[
+                S("leaf", "k", ty=Ty("string"), iskey=True, config=False), S("leaf", "v", ty=Ty("string"), config=False)])]),
+        S("list", "ul", keys=["k"], userord=True, kids=[S("leaf", "k", ty=Ty("uint8"), iskey=True), S("leaf", "v", ty=Ty("string"))]),
+    ])
 
 
 # ----------------------------------------------------------------------------------------------
@@ -541,11 +563,11 @@ class TreeGen:
             if force and n == 0 and hi > 0:
                 n = 1
             if sn.userord and sn.ty.name == "string" and rng.random() < 0.9:
-                pool = [v for v in pool if v != b""]                  # "" cannot be a yang:value anchor (finding F52): keep it rare
+                pool = [v for v in pool if v != b""]                  # "" cannot be a yang:value anchor (finding F122): keep it rare
             if sn.config or rng.random() < 0.85:
                 vals = rng.sample(pool, min(n, len(pool)))
             else:
-                vals = [rng.choice(pool[:4]) for _ in range(n)]       # duplicates are allowed in state leaf-lists (finding F53)
+                vals = [rng.choice(pool[:4]) for _ in range(n)]       # duplicates are allowed in state leaf-lists (finding F123)
             return [DN(sn, v) for v in vals]
         if sn.kind == "container":
             if sn.presence:
